@@ -111,4 +111,14 @@ def runTree (t : Tree) : RunOut :=
     (acc.1 ++ [q'], if failed then acc.2 + 1 else acc.2)) ([], 0)
   { services := processUnits qs', loadErrors := nLoadErr, dropinErrors := nDrop }
 
+/-- how many units of the run did not convert -/
+def outIsErr : Out → Bool
+  | .err _ => true
+  | _ => false
+def RunOut.convErrors (r : RunOut) : Nat := (r.services.filter fun p => outIsErr p.2).length
+
+/-- the exit status of the run: main() exits 1 when the list of collected errors is not empty (load, drop-in and conversion errors; write
+    errors are the subject of the writer model), else 0 -/
+def RunOut.exitStatus (r : RunOut) : Nat := if r.loadErrors + r.dropinErrors + r.convErrors = 0 then 0 else 1
+
 end Cv
